@@ -236,6 +236,60 @@ def build_once_cache(fn, store, classnames):
     return constant(asg.value, nd)
 
 
+def session_writes_to_shared_structures(src):
+    """[(method, description, source field, line)]: item stores / field stores / mutating calls, in methods of KmipSession other than __init__, on
+    anything taken out of a structure the session was handed at construction (shared by all session threads)"""
+    from ..dataflow import node_of_expr as _noe
+    t = src.tree(SESSION)
+    out = []
+    for q, fn, cls in all_functions(t):
+        if cls is None or cls.name != 'KmipSession' or fn.name == '__init__':
+            continue
+        shared = shared_session_fields(cls)
+        sg_ = None
+        for n in walk_local(fn):
+            base = None
+            if isinstance(n, ast.Subscript) and isinstance(n.ctx, (ast.Store, ast.Del)):
+                base, what = n.value, 'item store on'
+            elif isinstance(n, ast.Call) and isinstance(n.func, ast.Attribute) and n.func.attr in MUTATORS:
+                base, what = n.func.value, 'mutating call %s on' % n.func.attr
+            elif isinstance(n, ast.Attribute) and isinstance(n.ctx, (ast.Store, ast.Del)) and isinstance(n.value, ast.Name) and n.value.id != 'self':
+                base, what = n.value, 'field store on'
+            if base is None:
+                continue
+            if sg_ is None:
+                sg_ = CFG(fn)
+                srd_ = ReachingDefs(sg_)
+            nd_ = _noe(sg_, n)
+            src_field = derives_from_fields(srd_, nd_, base, shared) if nd_ is not None else None
+            if src_field:
+                out.append((q, '%s %s' % (what, U(base)), src_field, n.lineno))
+    return out
+
+
+def check_session_per_request(ctx, m):
+    """C10.R7: nothing a request loaded from the store is still there for the next request."""
+    ctx.rule('C10.R7', 'every request reads the store through a database session of its own that ends with the request: the session factory of the engine is a plain sessionmaker (not scoped_session or another registry that hands the same session to a thread again), and _process_batch obtains its session as the context manager of the `with` statement that encloses the batch loop, so it is closed when the request is done - a session that lives on with the connection thread keeps the rows it loaded and answers a later request from them, although another connection changed or destroyed the object in between (Destroy of an object another client activated)')
+    init = m.method('__init__')
+    facts = [x for x in walk_local(init) if isinstance(x, ast.Assign) and len(x.targets) == 1 and is_self_attr(x.targets[0], '_data_store_session_factory')]
+    ctx.need(len(facts) == 1, 'unrecognised construct: %d assignments of self._data_store_session_factory in __init__' % len(facts))
+    v = facts[0].value
+    cn = call_name(v) if isinstance(v, ast.Call) else None
+    ctx.check(cn is not None and cn.split('.')[-1] == 'sessionmaker', 'C10.R7', 'KmipEngine.__init__|session-factory', m.site(facts[0], init),
+              'the factory is sessionmaker(...): every call builds a new session',
+              'the session factory is %s, not a plain sessionmaker: the same session (with everything it has loaded) can be handed out again for a later request of the same thread' % (cn or U(v)[:50]))
+    pb = m.method('_process_batch')
+    withs = [w for w in walk_local(pb) if isinstance(w, ast.With) and any('session_factory' in U(it.context_expr) for it in w.items)]
+    others = [c for c in walk_local(pb) if isinstance(c, ast.Call) and 'session_factory' in U(c.func)
+              and not any(c is it.context_expr for w in withs for it in w.items)]
+    loops = [l for l in walk_local(pb) if isinstance(l, ast.For) and any(isinstance(c, ast.Call) and is_self_attr(c.func, '_process_operation') for c in ast.walk(l))]
+    ctx.need(loops, 'unrecognised construct: no loop in _process_batch that calls _process_operation')
+    inside = bool(withs) and all(any(l is x for w in withs for x in ast.walk(w)) for l in loops)
+    ctx.check(bool(withs) and not others and inside, 'C10.R7', 'KmipEngine._process_batch|session-scope', m.site(pb, pb),
+              'the session is the context manager of the with statement around the batch loop',
+              '_process_batch does not take its session from a `with <factory>() as session:` around the batch loop: the session is not closed with the request, what it loaded stays visible to the next request served by that session')
+
+
 def check_one_engine_for_all_sessions(ctx):
     """C10.R5: every session is handed the same engine object."""
     ctx.rule('C10.R5', 'the server creates one KmipEngine (a single construction site in kmip/services/server/server.py, stored in one instance field) and every KmipSession it starts is handed that field: the lock that serialises requests lives in the engine object, so sessions with engines of their own would work on the common database without any mutual exclusion')
@@ -471,6 +525,22 @@ def run(ctx):
                 cands = [s for s in rc.body if isinstance(s, ast.Assign) and isinstance(s.value, (ast.List, ast.Dict, ast.Set, ast.Call))
                          and len(s.targets) == 1 and isinstance(s.targets[0], ast.Name)]
                 changed = mutated_names(raw, {s.targets[0].id for s in cands}, {id(s.targets[0]) for s in cands})
+                # the same container under a local name: v = self.<name> ... v[k] = x / v.update(...) / del v[k]
+                cnames = {s.targets[0].id for s in cands}
+                for fn_ in [x for x in rc.body if isinstance(x, ast.FunctionDef)]:
+                    al = {}
+                    for x in walk_local(fn_):
+                        if isinstance(x, ast.Assign) and len(x.targets) == 1 and isinstance(x.targets[0], ast.Name) and isinstance(x.value, ast.Attribute) \
+                                and isinstance(x.value.value, ast.Name) and x.value.value.id in ('self', 'cls', cn) and x.value.attr in cnames:
+                            al[x.targets[0].id] = x.value.attr
+                    for x in walk_local(fn_):
+                        b = None
+                        if isinstance(x, ast.Subscript) and isinstance(x.ctx, (ast.Store, ast.Del)):
+                            b = x.value
+                        elif isinstance(x, ast.Call) and isinstance(x.func, ast.Attribute) and x.func.attr in MUTATORS:
+                            b = x.func.value
+                        if isinstance(b, ast.Name) and b.id in al:
+                            changed = set(changed) | {al[b.id]}
                 for s in cands:
                     if s.targets[0].id not in changed:
                         ctx.ok('C10.R3', '%s:%s %s' % (rel, s.lineno, cn), 'class-level container %s is never rebound or modified: a constant table' % s.targets[0].id)
@@ -518,6 +588,7 @@ def run(ctx):
               'process_request result is not unpacked into (response, max size, version)')
     check_one_engine_for_all_sessions(ctx)
     check_nothing_handed_out_is_updated_in_place(ctx, m)
+    check_session_per_request(ctx, m)
     ctx.not_decided += ["SQLite/SQLAlchemy thread-safety with check_same_thread=False (single writer under the lock is assumed)",
                         "fairness/ordering of lock acquisition between sessions"]
     ctx.assumptions += ["threading.RLock is a mutual-exclusion lock", "no monkey-patching of KmipEngine at run time",
